@@ -97,6 +97,9 @@ def run(ctx):
         rules = [(n, body(rng, names[i + 1:], rng.choice([1, 1, 2, 3, 5]))) for i, n in enumerate(names)]
         creds = {k: rand_creds_value(rng, rng.randint(0, 3)) for k in rng.sample(['a', 'b', 'c', '0', 'é'], rng.randint(0, 4))}
         creds['roles'] = rng.choice([[], ['r1'], ['x', "'", 'class']])
+        if rng.random() < 0.15:
+            del creds['roles']          # no role list at all (role checks deny)
+            creds['user_id'] = 'u1'
         # (a placeholder name is one flat key, dots and all: the target may also hold its first component)
         target = {k: rng.choice(TVALS) for k in rng.sample(['t', 'x.y', 'n', 'other', 'x', 'x'], rng.randint(0, 5))}
         for k in range(2):
